@@ -807,6 +807,114 @@ func RoleEffectOf(e *eng.Engine, t *eng.TxRec, prop, where string) {
 		if post.BridgeChains[lower(x.ChainName)] {
 			bad("RemoveAllowedBridgeChain succeeded but %s is still allowed", x.ChainName)
 		}
+	// creations: the role holders of the new entity are exactly the ones the message names
+	case *basetypes.MsgCreateClass:
+		r, ok := t.Resps[0].(*basetypes.MsgCreateClassResponse)
+		if !ok {
+			return
+		}
+		c := post.ClassByID[r.ClassId]
+		if c == nil {
+			bad("CreateClass answered %s which does not exist", r.ClassId)
+			return
+		}
+		if obs.Addr(c.Admin) != x.Admin {
+			bad("CreateClass(%s): admin is %s, the message names %s", r.ClassId, obs.Addr(c.Admin), x.Admin)
+		}
+		want := map[string]bool{}
+		for _, a := range x.Issuers {
+			want[a] = true
+		}
+		got := post.Issuers[c.Key]
+		for a := range want {
+			if !got[a] {
+				bad("CreateClass(%s): %s named as issuer is not an issuer", r.ClassId, a)
+			}
+		}
+		for a := range got {
+			if !want[a] {
+				bad("CreateClass(%s): %s is an issuer but the message does not name it", r.ClassId, a)
+			}
+		}
+		if c.CreditTypeAbbrev != x.CreditTypeAbbrev {
+			bad("CreateClass(%s): credit type %s, the message names %s", r.ClassId, c.CreditTypeAbbrev, x.CreditTypeAbbrev)
+		}
+	case *basetypes.MsgCreateProject:
+		r, ok := t.Resps[0].(*basetypes.MsgCreateProjectResponse)
+		if !ok {
+			return
+		}
+		p := post.ProjectByID[r.ProjectId]
+		if p == nil {
+			bad("CreateProject answered %s which does not exist", r.ProjectId)
+			return
+		}
+		if obs.Addr(p.Admin) != x.Admin {
+			bad("CreateProject(%s): admin is %s, the message names %s", r.ProjectId, obs.Addr(p.Admin), x.Admin)
+		}
+		if c := post.Classes[p.ClassKey]; c == nil || c.Id != x.ClassId {
+			bad("CreateProject(%s): not in class %s", r.ProjectId, x.ClassId)
+		}
+	case *basetypes.MsgCreateBatch:
+		r, ok := t.Resps[0].(*basetypes.MsgCreateBatchResponse)
+		if !ok {
+			return
+		}
+		b := post.BatchByDenom[r.BatchDenom]
+		if b == nil {
+			bad("CreateBatch answered %s which does not exist", r.BatchDenom)
+			return
+		}
+		if obs.Addr(b.Issuer) != x.Issuer {
+			bad("CreateBatch(%s): issuer is %s, the message names %s", r.BatchDenom, obs.Addr(b.Issuer), x.Issuer)
+		}
+		if b.Open != x.Open {
+			bad("CreateBatch(%s): open=%v, the message says %v", r.BatchDenom, b.Open, x.Open)
+		}
+		if p := post.Projects[b.ProjectKey]; p == nil || p.Id != x.ProjectId {
+			bad("CreateBatch(%s): not in project %s", r.BatchDenom, x.ProjectId)
+		}
+	case *baskettypes.MsgCreate:
+		r, ok := t.Resps[0].(*baskettypes.MsgCreateResponse)
+		if !ok {
+			return
+		}
+		if b := post.BasketByDenom[r.BasketDenom]; b == nil || obs.Addr(b.Curator) != x.Curator {
+			bad("basket Create(%s): curator is not %s", r.BasketDenom, x.Curator)
+		}
+	case *markettypes.MsgSell:
+		r, ok := t.Resps[0].(*markettypes.MsgSellResponse)
+		if !ok {
+			return
+		}
+		for _, id := range r.SellOrderIds {
+			if o := post.Orders[id]; o == nil || obs.Addr(o.Seller) != x.Seller {
+				bad("Sell: order %d does not belong to the seller %s", id, x.Seller)
+			}
+		}
+	case *data.MsgDefineResolver:
+		r, ok := t.Resps[0].(*data.MsgDefineResolverResponse)
+		if !ok {
+			return
+		}
+		rv := post.Resolvers[r.ResolverId]
+		if rv == nil {
+			bad("DefineResolver answered id %d which does not exist", r.ResolverId)
+			return
+		}
+		if pre.Resolvers[r.ResolverId] != nil {
+			bad("DefineResolver answered id %d which existed before", r.ResolverId)
+		}
+		if x.Public {
+			if len(rv.Manager) != 0 {
+				bad("DefineResolver(public) id %d has a manager %s", r.ResolverId, obs.Addr(rv.Manager))
+			}
+		} else if obs.Addr(rv.Manager) != x.Definer {
+			bad("DefineResolver id %d: manager is %s, the definer is %s", r.ResolverId, obs.Addr(rv.Manager), x.Definer)
+		}
+		if rv.Url != x.ResolverUrl {
+			bad("DefineResolver id %d: url %q, the message says %q", r.ResolverId, rv.Url, x.ResolverUrl)
+		}
 	}
 }
 
